@@ -193,7 +193,7 @@ func init() {
 		"(*sync.WaitGroup).Add":   extNop,
 		"(*sync.WaitGroup).Done":  extNop,
 		"(*sync.WaitGroup).Wait":  extNop,
-		"(*sync.Pool).Put":        extNop,
+		"(*sync.Pool).Put":        extPoolPut,
 		"(*sync.Pool).Get":        extPoolGet,
 		"(*sync.Once).Do":         extOnceDo,
 		"(*sync.Map).Load":        extSyncMapLoad,
@@ -719,8 +719,40 @@ func unicodePred(name string, f func(rune) bool) intrinsicFn {
 
 // ---------------------------------------------------------------- sync
 
-func extPoolGet(fr *frame, args []value) value {
+// sync.Pool, sequential model: Get hands back the most recently Put item if there
+// is one (a legal behaviour of the real pool, and the usual one on one goroutine
+// between collections), otherwise New(). Reuse is what makes stale pooled state
+// visible to a history harness.
+func extPoolPut(fr *frame, args []value) value {
+	i := fr.i
 	p := args[0].(*value)
+	if x, ok := args[1].(iface); ok && x.t == nil {
+		return nil
+	}
+	old, _ := i.sideState[p].([]value)
+	stack := append(append([]value(nil), old...), args[1])
+	i.sideState[p] = stack
+	i.logUndo(func() {
+		if old == nil {
+			delete(i.sideState, p)
+		} else {
+			i.sideState[p] = old
+		}
+	})
+	return nil
+}
+
+func extPoolGet(fr *frame, args []value) value {
+	i := fr.i
+	p := args[0].(*value)
+	if old, _ := i.sideState[p].([]value); len(old) > 0 {
+		i.ex.run.noteStub("sync.Pool: Get returns the most recently Put item (sequential model)")
+		top := old[len(old)-1]
+		rest := append([]value(nil), old[:len(old)-1]...)
+		i.sideState[p] = rest
+		i.logUndo(func() { i.sideState[p] = old })
+		return top
+	}
 	st := (*p).(structure)
 	// field "New" is the last field
 	newf := st[len(st)-1]
